@@ -618,3 +618,22 @@ def slice_chains(e, acc=None):
         if isinstance(x, (list, tuple)):
             slice_chains(x, acc)
     return acc
+
+
+def port_nodes(e, name, acc=None):
+    """all ["port", type, name] nodes of the tree"""
+    acc = [] if acc is None else acc
+    if not (isinstance(e, list) and e and isinstance(e[0], str)):
+        if isinstance(e, (list, tuple)):
+            for x in e:
+                if isinstance(x, (list, tuple)):
+                    port_nodes(x, name, acc)
+        return acc
+    if e[0] == "port":
+        if e[2] == name:
+            acc.append(e)
+        return acc
+    for x in e[1:]:
+        if isinstance(x, (list, tuple)):
+            port_nodes(x, name, acc)
+    return acc
